@@ -360,6 +360,61 @@ type idLeaf struct {
 	hasPosE        [2]bool
 }
 
+// zipWorlds enumerates the abstract worlds of one generic position of the (single) summarised zip loop
+// reached from root; each is called with the world and the position's outcome. The presence of both
+// sides at the position is always decided in a world.
+type zipLeaf struct {
+	w *world
+	o *iterOutcome
+}
+
+func zipWorlds(c *aeCtx, root *ssa.Function) (leaves []zipLeaf, fn *ssa.Function, seq string, oof string) {
+	c.queryPair(root, nil, nil)
+	var lp *loop
+	for f := range c.p.AllFns {
+		if !c.p.IsRepoFn(f) || f.Blocks == nil {
+			continue
+		}
+		for _, l := range c.loopsOf(f) {
+			if s, ok := c.lsum[loopID(f, l)]; ok && s.ok {
+				fn, lp = f, l
+			}
+		}
+	}
+	if lp == nil {
+		return nil, nil, "", "no summarised position-wise loop"
+	}
+	id := loopID(fn, lp)
+	pres := ""
+	for k, ti := range c.terms {
+		if ti.kind == akPresence && strings.HasPrefix(k, "present:") {
+			if _, ok := c.terms["zip:"+id+"("+strings.TrimPrefix(k, "present:")+")"]; ok {
+				pres = k
+			}
+		}
+	}
+	if pres == "" {
+		return nil, fn, "", "the zipped sequence of the loop was not found"
+	}
+	seq = strings.TrimPrefix(pres, "present:")
+	oof = c.withRetries(root, func() {
+		leaves = nil
+		c.explore(2, 400000, func(w *world) {
+			o := c.runIter(root, w, 0, 1, fn, lp)
+			if o == nil {
+				return
+			}
+			for ind := 0; ind < 2; ind++ {
+				if _, ok := w.pos[posKey(pres, ind)]; !ok {
+					panic(needAtom{key: pres, p: ind, q: -1})
+				}
+			}
+			leaves = append(leaves, zipLeaf{w.clone(), o})
+		})
+	})
+	return leaves, fn, seq, oof
+}
+
 // semverIterLeaves enumerates the abstract worlds of one generic iteration of the identifier loop.
 func semverIterLeaves(c *aeCtx, root *ssa.Function) (leaves []idLeaf, atoms *idAtoms, fn *ssa.Function, oof string) {
 	c.queryPair(root, nil, nil)
@@ -677,4 +732,48 @@ func fieldTypeByName(st *types.Struct, key string) types.Type {
 
 func init() {
 	register("C08", "SemVer-family ecosystems implement SemVer 2.0.0 precedence", ruleBuildIgnored, ruleSemverChain, ruleSemverTable)
+}
+
+// zipDecides: in every abstract world of root(x, y) the result is the sign of the summarised zip
+// relation: nothing before or after the position-wise loop (a fast path, a post-adjustment) decides
+// the comparison. early(w) may accept worlds that legitimately return without reaching the loop.
+func zipDecides(c *aeCtx, root *ssa.Function, early func(w *world, result int64) bool) (n int, bad []string, oof string) {
+	saved := c.filter
+	c.filter = nil
+	defer func() { c.filter = saved }()
+	oof = c.withRetries(root, func() {
+		n, bad = 0, nil
+		c.explore(2, 300000, func(w *world) {
+			v := c.runPair(root, w, 0, 1, nil)
+			n++
+			zipSeen := false
+			for rk, rv := range w.rel {
+				if strings.HasPrefix(rk, "zip:") && strings.HasSuffix(rk, "|0|1") {
+					zipSeen = true
+					if int64(rv) != v {
+						bad = append(bad, fmt.Sprintf("the result %d differs from the position-wise comparison (%d) [%s]", v, rv, w.describe(c.pools, c.terms)))
+					}
+				}
+			}
+			if !zipSeen && v == 0 {
+				// two empty sequences: the loop does not run and the tie is right
+				for k := range c.terms {
+					if strings.HasPrefix(k, "len(") {
+						if z := poolIndexInt(c.pools[k], 0); z >= 0 {
+							p0, ok0 := w.pos[posKey(k, 0)]
+							p1, ok1 := w.pos[posKey(k, 1)]
+							if ok0 && ok1 && p0 == 2*z+1 && p1 == 2*z+1 {
+								zipSeen = true
+							}
+						}
+					}
+				}
+			}
+			if !zipSeen && !(early != nil && early(w, v)) {
+				bad = append(bad, fmt.Sprintf("the result %d is decided without the position-wise comparison [%s]", v, w.describe(c.pools, c.terms)))
+			}
+		})
+	})
+	sort.Strings(bad)
+	return n, bad, oof
 }
